@@ -418,6 +418,11 @@ def check_att(acc):
             acc.evaluations += 1
             if H.att2idx(nm) != (i, j) or H.att2name(nm) != base:
                 acc.violation("att2idx_depth2", {"sec": "att", "name": nm}, f"{H.att2idx(nm)}")
+        for idx in ((1, 2, 3), (2, 1, 10), (1, 1, 1, 1), (12, 3, 4, 99)):
+            nm = base + "".join(f"_{i:02d}" for i in idx)
+            acc.evaluations += 1
+            if H.att2idx(nm) != idx or H.att2name(nm) != base:
+                acc.violation("att2idx_depth3+", {"sec": "att", "name": nm}, f"{H.att2idx(nm)} {H.att2name(nm)}")
     acc.outcomes[("att", len(names))] += 1
 
 
